@@ -23,13 +23,13 @@ PROP = {
         "a send-complete notification that is lost because disable() was called between the send and the notification is left free; without disable() it must follow the last send (pinned by the unit tests)",
         "callbacks that still arrive for a connection in the pass in which the harness disconnected it are verified for content but not forbidden (fd-event dispatch after disable is C03's subject); stale TcpServer tokens after stop() are not used (cabinet token aliasing is C08's subject)",
         "after 'peer writes its last bytes and closes, the application sends at once' (op pfin) on TCP only the bytes the local kernel already held when the peer closed are required to be presented (a send to a closed TCP peer makes its kernel discard what it had not transmitted); on unix sockets all of them",
-        "sizes: one send <= 1 MiB + 4 KiB, <= 3 MiB sent and <= 1.5 MiB received per case; loopback TCP is 1/4 of the server/client cases, the tbox socket keeps its default buffers and the peer's are not shrunk below 8 KiB (a 2 KiB window stalls for seconds on zero-window probes); while the missing bytes are demonstrably in the kernel (TIOCOUTQ of the tbox socket > 0, or the socket already closed orderly) the harness waits up to 8 s of real time, otherwise 3 s; a TCP case whose missing bytes are all demonstrably held by the kernel when that budget ends (zero-window probing with back-off) is counted as inconclusive (class tcp_kernel_stall_inconclusive), not as a violation",
+        "sizes: one send <= 1 MiB + 4 KiB, <= 3 MiB sent and <= 1.5 MiB received per case; loopback TCP is 1/4 of the server/client cases, the tbox socket keeps its default buffers and the peer's are not shrunk below 8 KiB (a 2 KiB window stalls for seconds on zero-window probes); while the missing bytes are demonstrably in the kernel (TIOCOUTQ of the tbox socket > 0, or the socket already closed orderly) the harness waits up to 3 s of real time per case; a TCP case whose missing bytes are all demonstrably held by the kernel when that budget ends (zero-window probing with back-off) is counted as inconclusive (class tcp_kernel_stall_inconclusive), not as a violation",
         "unix-domain clients do not bind their own socket (a bound client makes TcpAcceptor read past a 16-byte sockaddr: outside this statement, see NOTES.md / proposed-fixes/02)",
     ],
 }
 META = {
     "design_ref": "DESIGN.md section 4, C06",
     "technique": "model-based stateful PBT (rapidcheck) of BufferedFd / TcpServer / TcpClient against raw peer descriptors (socketpair, pipes, unix-domain paths, 127.0.0.1) with minimum-size kernel buffers, driven pass by pass through the production event loop (virtual clock), position-coded payload and two FIFO byte counters per direction, under ASan/UBSan",
-    "level_text": "Generated histories (sends of 1 byte to 1 MiB biased around the measured kernel-buffer capacity, sends before enable()/during disable(), sends and disconnects from inside callbacks, peer reads of k bytes / nothing for p passes / k bytes per pass, peer writes biased around the receive buffer's free space and the 1 KiB spill buffer, receive thresholds, consumption patterns by call number {all | k bytes | nothing | fetch k | all but k}, consumption between callbacks, buffer shrinking, kernel-buffer resizing, peer shutdown(WR)/close, tbox-side disconnect/stop/restart (also 'large reply, then close from inside / right after the send-complete notification' towards a peer that reads slowly or not at all), up to 3 simultaneous server connections and up to 6 client reconnections) are executed against the real classes over real descriptors. Every byte of a direction is a function of its stream offset; the oracle checks that what the peer reads is exactly the prefix of what send() accepted, that totals match at quiescence while neither side closed, that every receive callback sees exactly unconsumed-suffix ++ new bytes with at least threshold bytes, that a send-complete notification finds every accepted byte already written to the descriptor (peer drained or FIONREAD), that it follows the last send, that after a local close which followed such a notification the peer still reads every accepted byte and then EOF (no reset), and that a peer close is reported exactly once, only after the peer closed and after all earlier inbound data was presented. Exploration only: no counter-example among N generated histories.",
+    "level_text": "Generated histories (sends of 1 byte to 1 MiB biased around the measured kernel-buffer capacity, sends before enable()/during disable(), sends and disconnects from inside callbacks, peer reads of k bytes / nothing for p passes / k bytes per pass, peer writes biased around the receive buffer's free space and the 1 KiB spill buffer, receive thresholds, consumption patterns by call number {all | k bytes | nothing | fetch k | all but k}, consumption between callbacks, buffer shrinking, kernel-buffer resizing, peer shutdown(WR)/close, tbox-side disconnect/stop/restart (also 'large reply, then close from inside / right after the send-complete notification' towards a peer that reads slowly or not at all), up to 3 simultaneous server connections and up to 6 client reconnections) are executed against the real classes over real descriptors. Every byte of a direction is a function of its stream offset; the oracle checks that what the peer reads is exactly the prefix of what send() accepted, that totals match at quiescence while neither side closed, that every receive callback sees exactly unconsumed-suffix ++ new bytes with at least threshold bytes, that a send-complete notification finds every accepted byte already written to the descriptor (peer drained or FIONREAD; on TCP: read by the peer + its FIONREAD <= accepted <= that + TIOCOUTQ of the tbox socket, measured at the notification), that it follows the last send, that after a local close which followed such a notification the peer still reads every accepted byte and then EOF (no reset), and that a peer close is reported exactly once, only after the peer closed and after all earlier inbound data was presented. Exploration only: no counter-example among N generated histories.",
     "level_note": "Trusted: the kernel's stream semantics for unix sockets and pipes (FIFO, FIONREAD), the position-coded payload function, ASan/UBSan. Timing: unix sockets and pipes are synchronous, so the check is a pure function of the scenario; loopback TCP cases wait in real time (bounded 3 s) for bytes in flight. Not asserted: number of loop passes between cause and effect, callbacks per readv chunk, delivery of bytes still queued in user space at a local close, delivery after the peer closed, error-path behaviour (EPIPE/ECONNRESET) beyond crash-freedom, a send-complete notification lost across disable()/enable(). Sizes are bounded to 1 MiB per send and 3 MiB per case.",
 }
